@@ -740,6 +740,28 @@ def zeros(shape, dtype=None, **kw):
     return ndarray._fresh([Sym(0)] * _prod(shape), shape)
 
 
+def zeros_like(a, dtype=None, **kw):
+    return zeros(asarray(a).shape)
+
+
+def ones_like(a, dtype=None, **kw):
+    return ones(asarray(a).shape)
+
+
+def empty_like(a, dtype=None, **kw):
+    return zeros(asarray(a).shape)
+
+
+def full(shape, fill_value, dtype=None, **kw):
+    z = zeros(shape)
+    z.fill(fill_value)
+    return z
+
+
+def full_like(a, fill_value, dtype=None, **kw):
+    return full(asarray(a).shape, fill_value)
+
+
 def ones(shape, dtype=None, **kw):
     if isinstance(shape, int):
         shape = (shape,)
